@@ -502,14 +502,15 @@ class Splicer:
         lps = self.loops(body_lo + 1, body_hi)
         r14 = "R14" in fs.rules
         for ls in fs.loops:
-            same = [l for l in lps if l["kw"] == ls.kw]
+            same = lps if ls.kw == "any" else [l for l in lps if l["kw"] == ls.kw]
             if ls.ordinal > len(same):
                 raise Undecided("loop anchor lost: %s %s#%d" % (key, ls.kw, ls.ordinal))
             l = same[ls.ordinal - 1]
             l["spec"] = ls
         for l in lps:
             ls = l.get("spec")
-            if l["kw"] == "for" and r14:
+            is_range = l["kw"] == "for" and any(toks[x].text in ("..", "..=") for x in range(l["in_idx"], l["brace"]))
+            if l["kw"] == "for" and r14 and not is_range:
                 pat = rs.text_of(toks, l["at"] + 1, l["in_idx"]).strip()
                 e_lo = l["in_idx"] + 1
                 expr = rs.text_of(toks, e_lo, l["brace"]).strip()
